@@ -59,6 +59,15 @@ CHECKS.update({
                 design="4/C13, 2.3, 2.9", note=BASE_NOTE + " The CLI is invoked in-process through its click entry point."),
 })
 
+CHECKS.update({
+    "C10": dict(engine="syntax", technique="TLC: renderer state machine MPSyntax.tla (RoundTrip, CorruptionRejected; exhaustive for small programs, -simulate for large) + MPLex.tla (QuoteRoundTrip over all class strings); every rendering / corruption / string parsed by the real parser and validated by TLC (MPSyntaxTrace.tla, MPLexTrace.tla) against Denote(tokens)",
+                text="Every behaviour of the renderer is one concrete rendering (spaces, tabs, LF/CRLF, comments, blank lines, trailing commas, quoting styles) of an abstract program with all value kinds; TLC checks RoundTrip and CorruptionRejected on the token level and the quote/unquote round trip on every string over 21 character classes; the real parser's tree for every rendering (2-4 lexeme variants each) is abstracted and validated by TLC against the specification's own parser, every single-token corruption of a sample of renderings must raise SyntaxError, and every class string is pushed through the real lexer quoted both ways and bare.",
+                design="4/C10, 2.6", note=BASE_NOTE + " Only the core language is generated (see DESIGN.md Appendix B); larger programs are sampled by TLC -simulate, not enumerated."),
+    "C11": dict(engine="syntax", technique="TLC: LinesTrue on MPSyntax's renderer, MPParserObj.tla history invariants, MPValidate error locations; real parse-tree / error / CLI line numbers validated by TLC (MPSyntaxTrace, MPParserObjTrace, MPValidateTrace clause C11.ErrorLine, MPCliTrace clause C11.CliContextLine)",
+                text="The renderer state machine carries the true start line of every node (TLC checks its bookkeeping against a recount); the real parse tree's lineno of every command, argument, value, list element and tuple pair is validated against it for every rendering; every history of parses on shared Parser objects is replayed (MPParserObj); every fault of the C12 matrix must raise an error whose lineno locates the offending command or argument; the command-line tool's marked line must be that line.",
+                design="4/C11, 2.6, 2.3", note=BASE_NOTE),
+})
+
 NOT_YET = "check not built yet (build in progress; see DESIGN.md section 4b build order)"
 
 
@@ -97,6 +106,8 @@ def main():
              "kind_free_text": "TLC (spec/Rat.tla, EEMSOps.tla, EEMSCases.tla, EEMSOpsTrace.tla) + packed execution of the real commands"},
             {"name": "params", "path": "harness/paramcheck.py", "serves_properties": ["C20"],
              "kind_free_text": "TLC (spec/MPParamsTable.tla, MPParams.tla, MPParamsTrace.tla) + clean() driver"},
+            {"name": "syntax", "path": "harness/syntax.py", "serves_properties": ["C10", "C11"],
+             "kind_free_text": "TLC (spec/MPSyntaxDefs.tla, MPSyntax.tla, MPSyntaxTrace.tla, MPLex.tla, MPLexTrace.tla, MPParserObj.tla, MPParserObjTrace.tla) + renderer/concretiser + real parser"},
             {"name": "validate", "path": "harness/validate.py", "serves_properties": ["C12", "C13"],
              "kind_free_text": "TLC (spec/MPValidateDefs.tla, MPValidate.tla, MPValidateTrace.tla, MPCli.tla, MPCliTrace.tla; MC_Decl generated by harness/decl.py) + renderer/runner"},
         ],
